@@ -55,6 +55,11 @@ CLAIMS = {
   text="Structural necessary conditions of lazy parameters: PrepareCallExprArgs, GenerateCallArgsForFunction and Apply each test IsLazyCallArg on the argument's position, build the (source / source-instruction / value) wrapper exactly on its true branch, continue the loop there, and evaluate or push every other position exactly once; Go builtins are excluded (!user guards); the laziness flags are written only in SetFormalSymbols from isLazyFormalSymbol, which tests the # sigil; IsLazyCallArg is false in a variadic tail; Force returns the memo under the forced flag and otherwise stores value and flag before every successful return, installs a clone of the captured scope stack after capturing the control state and the captured function as parent; NewSourceLazyArg captures both; SubstituteFunction cannot reach Force. Does not decide effect counts/order for concrete programs.",
   note="Trusts go/ssa (including its lowering of range loops); fails closed on other shapes.",
   ref="DESIGN.md §3 C16"),
+ "C01": dict(
+  technique="recover-barrier reachability over the RTA call graph + enumeration of panic sources outside the barrier (explicit panics, unchecked type assertions, compiler-unproven bounds checks from the Go prove pass, integer division), nil-result dataflow, who-may-call for process exit and blocking operations",
+  text="Structural necessary conditions of crash containment, for all inputs: every dynamic call of a builtin function value is made in a frame with a deferred recover that does not re-panic (one tabled exception); on code reachable from the script-facing entry points without passing such a call, each explicit panic/panicOn, each single-result type assertion (unless dominated by a successful comma-ok test of the same value), each index/slice/make the compiler's prove pass cannot show in range, and each integer division is discharged by a keyed table row naming the invariant it rests on - any new such construct is reported; builtin-shaped functions and entry points cannot return (nil value, nil error); Stack.Get's underflow test dominates its element access, stack bookkeeping is written only by the stack primitives and TruncateToSize never grows; os.Exit/log.Fatal appear only in the exit builtin and the command driver; blocking channel operations reachable from scripts are reported (two recorded findings). Does not decide termination, nil dereference in general, or stack exhaustion by deep nesting.",
+  note="Trusts go/ssa, the RTA graph, and the soundness of the Go compiler's bounds-check elimination listing (go build -gcflags=-d=ssa/check_bce, replayed from the build cache). 194 table rows (tables/C01.tsv) carry invariants established by reading; a 2M-input random smoke run during development (not part of the check) produced no escaping panic after the fixes.",
+  ref="DESIGN.md §3 C01"),
 }
 NA_DEFAULT="rules not built yet (build in progress; see DESIGN.md §7)"
 NA = {}
